@@ -36,7 +36,7 @@ def dhOf (o : Op) : Option (Option Bytes) :=
   | some h => (ofHex h).map some
   | none => none
 
-def handle (line : String) : String :=
+def handle1 (line : String) : String :=
   let o := parseOp line
   match o.hex? "dst", o.nat? "cap" with
   | some dst, some spare =>
@@ -76,5 +76,15 @@ def handle (line : String) : String :=
       | _, _, _ => "bad-op"
     else "bad-op"
   | _, _ => "bad-op"
+
+/-- `sess ops=<op1>|<op2>|…` (sub-op fields separated by `;`): a session of calls that share arrays and buffers in
+    the harness. The model is a pure function of contents: each sub-op is answered on its own. -/
+def handle (line : String) : String :=
+  let o := parseOp line
+  if o.cmd == "sess" then
+    match o.get? "ops" with
+    | some v => " ## ".intercalate ((v.splitOn "|").map (fun s => handle1 (s.replace ";" " ")))
+    | none => "bad-op"
+  else handle1 line
 
 end XC.C02
